@@ -158,6 +158,28 @@ Lemma source_worthy_shape :
   Gen.C10.trigger_build_guard = "if !worthy { return nil, nil }"%string.
 Proof. repeat split; reflexivity. Qed.
 
+(** * The stores of x/valset/keeper (translator, round 3): every prefix store, the functions that
+    write through it and those that delete through it.  The snapshot id counter lives under prefix
+    "IDs" (the id generator [ider], written only from setSnapshotAsCurrent); the jail log shares that
+    prefix.  NOTHING deletes under "IDs" and nothing deletes under "snapshot": the counter can only
+    grow and a stored snapshot is never removed, as [step] assumes.  (Keys under the shared prefix:
+    the counter's key is the 25-byte text "generated-ids-snapshot-id", a jail-log key is a 20-byte
+    address.) *)
+Lemma source_stores_shape :
+  Gen.C10.valset_stores =
+    ["[]byte(""IDs"") | ider | set: setSnapshotAsCurrent | delete: ";
+     "[]byte(""IDs"") | jailLog | set: Jail | delete: ";
+     "[]byte(""external-chain-info"") | _externalChainInfoStore | set:  | delete: ";
+     "[]byte(""grace-period"") | gracePeriodStore | set: UpdateGracePeriod | delete: ";
+     "[]byte(""jail-reasons"") | jailReasonStore | set: Jail | delete: TriggerSnapshotBuild";
+     "[]byte(""keep-alive/"") | keepAliveStore | set: KeepValidatorAlive | delete: ";
+     "[]byte(""snapshot"") | snapshotStore | set: SaveModifiedSnapshot,SetSnapshotOnChain,setSnapshotAsCurrent | delete: ";
+     "[]byte(""unjailed-snapshot"") | unjailedSnapshotStore | set: UpdateGracePeriod | delete: UpdateGracePeriod";
+     "_externalChainInfoStore+[]byte( fmt.Sprintf(""val-%s"", val.String()), ) | externalChainInfoStore | set: SetExternalChainInfoState | delete: ";
+     "types.PigeonStoreKey | pigeonStore | set: SetPigeonRequirements,SetScheduledPigeonRequirements | delete: SetPigeonRequirements"]%string /\
+  Gen.C10.valset_unresolved_store_ops = [].
+Proof. split; reflexivity. Qed.
+
 (** * Non-vacuity: the boundary of the 1 % test, a trait change, a re-spelt chain type *)
 
 Local Open Scope string_scope.
